@@ -167,6 +167,7 @@ fn var_specs() -> Vec<(i32, Option<(f64, f64)>)> {
         Some((-3.0, 0.0)),
         Some((-inf, 0.0)),
         Some((1.0, 1.0)),
+        Some((-2.5e31, 1e30)),
     ];
     let mut v = vec![];
     for k in [KIND_CONTINUOUS, KIND_INTEGER] {
@@ -252,6 +253,10 @@ pub fn run(ctx: &Ctx) -> Finish {
             // list order: rotate so that the maximum id is not last and order varies
             let mut vars: Vec<VarRep> = (0..nv).map(|k| VarRep::new(ids[k], specs[vc[k]].0, specs[vc[k]].1)).collect();
             vars.rotate_left(i % nv);
+            if i % 2 == 1 {
+                vars[0].name = Some("x".into());
+                vars[0].subscripts = vec![1];
+            }
             // an unused extra variable with the largest id, first in the list
             vars.insert(0, VarRep::new(20, KIND_CONTINUOUS, None));
             for (ci, cl) in con_lists.iter().enumerate() {
@@ -263,7 +268,13 @@ pub fn run(ctx: &Ctx) -> Finish {
                     .enumerate()
                     .map(|(j, (fi, eq))| {
                         let cv = linear_variants(&fs[*fi].0, fs[*fi].1);
-                        ConRep::new([40u64, 3][j], *eq, cv[(k + j) % cv.len()].clone())
+                        let mut c = ConRep::new([40u64, 3][j], *eq, cv[(k + j) % cv.len()].clone());
+                        if (k + j) % 3 == 0 {
+                            // metadata must not leak into the ids recovered from the file
+                            c.name = Some(["balance", "cap1"][j].to_string());
+                            c.description = Some("a named constraint".into());
+                        }
+                        c
                     })
                     .collect();
                 let inst = InstRep {
